@@ -48,7 +48,7 @@ REQUIRED = ["Xmp.Api.C05_exports_covered", "Xmp.Api.C05_no_stale_export", "Xmp.A
             "Xmp.Api.C05_refines_partial", "Xmp.Api.C05_inv_init", "Xmp.Api.C05_inv_history",
             "Xmp.Api.C05_counterexample_set_position", "Xmp.Api.C05_counterexample_next_position",
             "Xmp.Api.C05_deviates_iff", "Xmp.Api.C05_void_ignored", "Xmp.Api.C05_state",
-            ]  # READBACK_PLACEHOLDER
+            "Xmp.Api.C05_readback_param", "Xmp.Api.C05_readback_mute", "Xmp.Api.C05_readback_vol"]
 
 INT_MIN, INT_MAX = -2147483648, 2147483647
 EXPORT_OF = {"recreate": "xmp_create_context"}
